@@ -5,6 +5,7 @@ import AslModel.History
 import AslModel.Lite
 import Proofs.Lemmas.Log
 import Proofs.Lemmas.FuelMono
+import Proofs.Lemmas.MapBatches
 namespace Asl.C09
 open Asl
 
@@ -381,5 +382,55 @@ example : ∃ c, decideError ((listOf (fld tSt "Retry")).map retrierOf) ((listOf
 /-- `bracketed` is not constantly true: a reply without its request is rejected -/
 example : bracketed [.lambdaSucceeded (.num 1), .entered (k "Task") (k "T") inL] = false ∧
     bracketed [.lambdaSucceeded (.num 1), .lambdaScheduled inL arnF] = true := by decide
+
+/-! ### no further Map batch after a failure -/
+
+/-- Map batches after a failure.  With `MaxConcurrency` mc > 0, let `done` be the items of the batches up to and
+including one in which an iteration failed (complete batches: a multiple of mc items) and `rest` the items of the
+later batches.  The later batches are never launched: the run over `done ++ rest` *is* the run over `done` — the
+same result and the same state.  In particular no event of a later batch is logged (`log`, with its instants
+`times`), no request of a later batch is counted (`requests`), and the clock and the predicted broker frames are
+those of `done` alone.  For every iterator, ItemSelector, input, oracle, fuel and starting state. -/
+theorem failed_batch_is_last (env : Env) (fuel : Nat) (proc : Json) (sel : Option Json) (input : Json)
+    (done rest : List Json) (mc : Nat) (be : Rat) (ctx : Json) (st : St)
+    (hmc : mc ≠ 0) (hlen : done.length % mc = 0)
+    (hfail : isFailure (runItems env fuel proc sel input done 0 mc be ctx false st).1 = true) :
+    runItems env fuel proc sel input (done ++ rest) 0 mc be ctx false st =
+      runItems env fuel proc sel input done 0 mc be ctx false st ∧
+    (runItems env fuel proc sel input (done ++ rest) 0 mc be ctx false st).2.log =
+      (runItems env fuel proc sel input done 0 mc be ctx false st).2.log ∧
+    (runItems env fuel proc sel input (done ++ rest) 0 mc be ctx false st).2.times =
+      (runItems env fuel proc sel input done 0 mc be ctx false st).2.times ∧
+    (runItems env fuel proc sel input (done ++ rest) 0 mc be ctx false st).2.requests =
+      (runItems env fuel proc sel input done 0 mc be ctx false st).2.requests := by
+  have h := runItems_failed_batches env fuel proc sel input done rest mc be ctx st hmc hlen hfail
+  exact ⟨h, by rw [h], by rw [h], by rw [h]⟩
+
+/-- … whatever the later items are: two item lists that agree up to the end of the failing batch run alike -/
+theorem later_batches_irrelevant (env : Env) (fuel : Nat) (proc : Json) (sel : Option Json) (input : Json)
+    (done rest rest' : List Json) (mc : Nat) (be : Rat) (ctx : Json) (st : St)
+    (hmc : mc ≠ 0) (hlen : done.length % mc = 0)
+    (hfail : isFailure (runItems env fuel proc sel input done 0 mc be ctx false st).1 = true) :
+    runItems env fuel proc sel input (done ++ rest) 0 mc be ctx false st =
+      runItems env fuel proc sel input (done ++ rest') 0 mc be ctx false st := by
+  rw [runItems_failed_batches env fuel proc sel input done rest mc be ctx st hmc hlen hfail,
+      runItems_failed_batches env fuel proc sel input done rest' mc be ctx st hmc hlen hfail]
+
+/-! non-vacuity: a Map with MaxConcurrency 2 whose iterations are a Task; the worker fails on item 2 (the second of
+the first batch).  Five items in three batches: two iterations are started, two requests made. -/
+private def envB : Env :=
+  { tmpl := Lite.tmpl, choose := Lite.choose,
+    task := fun _ p _ => if p = .num 2 then .obj [(("errorType").toList, .str ("Boom").toList)] else p }
+private def iterT : Json := .obj [(("StartAt").toList, .str ("T").toList), (("States").toList, .obj [(("T").toList,
+  .obj [(("Type").toList, .str ("Task").toList), (("Resource").toList, .str ("arn:aws:rpcmessage:local::function:f").toList),
+    (("End").toList, .bool true)])])]
+example : isFailure (runItems envB 20 iterT none (.obj []) [.num 1, .num 2] 0 2 0 (.obj []) false {}).1 = true ∧
+    [Json.num 1, .num 2].length % 2 = 0 := by decide +kernel
+example : (runItems envB 20 iterT none (.obj []) ([.num 1, .num 2] ++ [.num 3, .num 4, .num 5]) 0 2 0 (.obj []) false {}).2.requests = 2 ∧
+    ((runItems envB 20 iterT none (.obj []) ([.num 1, .num 2] ++ [.num 3, .num 4, .num 5]) 0 2 0 (.obj []) false {}).2.log.filter
+      (fun e => match e with | .iterStarted _ _ => true | _ => false)).length = 2 := by decide +kernel
+/-- without a failure every batch runs: five iterations, five requests -/
+example : (runItems envB 30 iterT none (.obj []) [.num 1, .num 3, .num 4, .num 5, .num 6] 0 2 0 (.obj []) false {}).2.requests = 5 := by
+  decide +kernel
 
 end Asl.C09
